@@ -1,0 +1,6 @@
+//go:build !verif
+
+package websocket
+
+// verifStep is a no-op unless built with -tags verif.
+func verifStep(string, ...interface{}) {}
